@@ -53,11 +53,21 @@ def check_positions(ctx, src, rq=None):
               b == ["model.start_line, model.start_column = start", "model.end_line, model.end_column = self.pos", "return model.replace(model)"], "POS-FILL", f"{HR}|fill_pos", f"fill_pos is {b}", HR, fp.lineno,
               witness="start and end are swapped / children do not inherit positions", detail="start from argument, end from self.pos, then replace(model)")
     tp = rq.methods["try_parse_one_form"][1]
-    pos = lambda n: (n.lineno, n.col_offset)
+    _ord = pyq.order(tp)
+    pos = lambda n: _ord.get(id(n), -1)
     getc = pyq.contains(tp, lambda n: isinstance(n, ast.Call) and dotted(n.func) == "self.getc")
     cap = pyq.contains(tp, lambda n: isinstance(n, ast.Assign) and dotted(n.value) == "self._pos" and isinstance(n.targets[0], ast.Name))
     sv = cap.targets[0].id if cap is not None else None
-    disp = [n for n in ast.walk(tp) if isinstance(n, ast.Call) and (dotted(n.func) == "self.read_default" or (isinstance(n.func, ast.Name) and n.args and isinstance(n.args[0], ast.Name) and n.args[0].id == "self"))]
+    def _is_dispatch(n):
+        return isinstance(n, ast.Call) and (dotted(n.func) == "self.read_default" or (isinstance(n.func, ast.Name) and n.args and isinstance(n.args[0], ast.Name) and n.args[0].id == "self"))
+
+    disp = [n for n in ast.walk(tp) if _is_dispatch(n)]
+    # ... or a call of a method of the reader that does the dispatch (a helper split off try_parse_one_form)
+    for n in ast.walk(tp):
+        if isinstance(n, ast.Call) and isinstance(n.func, ast.Attribute) and isinstance(n.func.value, ast.Name) and n.func.value.id == "self" and n.func.attr in rq.methods:
+            hf = rq.methods[n.func.attr][1]
+            if hf is not tp and any(_is_dispatch(x) for x in ast.walk(hf)) and n.func.attr != "read_default":
+                disp += [n, n]
     fill = pyq.contains(tp, lambda n: isinstance(n, ast.Call) and dotted(n.func) == "self.fill_pos" and len(n.args) == 2 and isinstance(n.args[1], ast.Name) and n.args[1].id == sv)
     ctx.check(getc is not None and cap is not None and len(disp) >= 2 and fill is not None and pos(getc) < pos(cap) < min(map(pos, disp)) and max(map(pos, disp)) < pos(fill), "POS-FILL", f"{HR}|try_parse_one_form|capture order",
               "the start position must be captured after the first character is consumed and before the handler runs; the end after it", HR, tp.lineno, detail="getc; start; handler; fill_pos")
